@@ -82,4 +82,35 @@ PLANS = {
             job('sock-reentrant', 'life-reentrant', 'C10', {'quick': 4, 'thorough': 5}, {'quick': 1, 'thorough': 2}),
         ],
     },
+    'C09': {
+        'level': 'model_checking', 'rule': RULE_HIST + '; the rotate pick and the probe coin are enumerated through the random tape; reference health table driven only by the public server-state callback stream', 'assumptions': ASSUME, 'targets': T,
+        'deadline': {'quick': 420, 'thorough': 2700},
+        'jobs': [
+            job('failover', 'failover', 'C09', {'quick': 5, 'thorough': 6}, 1,
+                wit=['c09_selection_checked', 'c09_failed_over', 'c09_probe_seen', 'c09_rotate_choice', 'policy_alternatives']),
+        ],
+    },
+    'C12': {
+        'level': 'model_checking', 'rule': RULE_HIST + '; names x ndots x domain lists x flags x aliases x per-candidate outcome sequences; reference = candidate order of resolv.conf(5)', 'assumptions': ASSUME, 'targets': T,
+        'deadline': {'quick': 420, 'thorough': 2700},
+        'jobs': [
+            job('search', 'search', 'C12', {'quick': 6, 'thorough': 8}, 0, wit=['c12_sequence_checked', 'c12_multi_candidate']),
+        ],
+    },
+    'C13': {
+        'level': 'model_checking', 'rule': RULE_HIST + '; answer grammar (single, multi, CNAME chain, mixed families + foreign class) x hints x sortlists x lookup orders x hosts files; provenance markers per resource record', 'assumptions': ASSUME, 'targets': T,
+        'deadline': {'quick': 420, 'thorough': 2700},
+        'jobs': [
+            job('addrs', 'addrs', 'C13', {'quick': 4, 'thorough': 5}, 0, wit=['c13_set_checked', 'c13_multi_address', 'c13_non_dns_checked', 'c13_loopback_checked', 'c13_reverse_question_checked']),
+        ],
+    },
+    'C17': {
+        'level': 'model_checking', 'rule': RULE_HIST + '; server cookie behaviours (none, valid, changed, wrong client part, BADCOOKIE with/without cookie, TC) x virtual-time advances across the timers x source-address change; reference RFC 7873 client automaton replayed over the transmissions and the packets the library looked at', 'assumptions': ASSUME, 'targets': T,
+        'deadline': {'quick': 420, 'thorough': 2700},
+        'jobs': [
+            job('cookie', 'cookie', 'C17', {'quick': 5, 'thorough': 6}, 0,
+                wit=['c17_client_cookie_constant', 'c17_client_cookie_rotated', 'c17_server_cookie_echoed', 'c17_tcp_without_cookie', 'c17_badcookie_resend',
+                     'c17_cookieless_dropped', 'c17_never_cookie_server_served', 'c17_wrong_client_dropped', 'c17_valid_cookie_accept', 'c17_source_address_changed']),
+        ],
+    },
 }
